@@ -20,7 +20,9 @@
     one object per row, each object being the key/value map the row was written from.
   Not claimed: two select-list columns with the same text share one JSON key (known finding D19; the
   theorems speak about `rowMap`, which keeps the last value of a repeated key).
-  That the four result paths emit header/rows/separators/footer in this shape, and the HTML document, are
+  * `html_text_in_context`, `html_row_roundtrip`, `html_document_roundtrip` — header, one `<tr>` per row with
+    one `<td>` per value, footer is read back as the list of rows, each cell unescaped to its value.
+  That the four result paths emit header/rows/separators/footer in this shape is
   decided by the correspondence (bytes equal to the model) and by Python's json/csv/html parsers against
   the `into list` run.
 -/
@@ -349,6 +351,207 @@ theorem csv_field_roundtrip (single : Bool) (s rest : Str)
       split
       · rename_i r2 heq; simp at heq; exact absurd heq.1 hc
       · rw [readPlain_roundtrip (c :: s') rest (fun d hd => (hs d hd).2) hrest]
+
+-- ------------------------------------------------------------------ whole HTML rows and documents
+
+def stripPrefix (p s : Str) : Option Str := if p.isPrefixOf s then some (s.drop p.length) else none
+
+theorem stripPrefix_append (p r : Str) : stripPrefix p (p ++ r) = some r := by
+  unfold stripPrefix
+  have h : p.isPrefixOf (p ++ r) = true := List.isPrefixOf_iff_prefix.mpr (List.prefix_append p r)
+  simp [h]
+
+/-- character data up to the next tag -/
+def readHtmlUntilTag : Nat → Str → Option (Str × Str)
+  | 0, _ => none
+  | _ + 1, [] => none
+  | f + 1, c :: r =>
+    if c == '<' then some ([], c :: r)
+    else match readHtmlChar (c :: r) with
+      | none => none
+      | some (d, r2) => (readHtmlUntilTag f r2).map (fun p => (d :: p.1, p.2))
+
+theorem htmlEscChar_head (c : Char) : ∃ x xs, htmlEscChar c = x :: xs ∧ (x == '<') = false := by
+  unfold htmlEscChar
+  by_cases h1 : c = '&'
+  · subst h1; exact ⟨'&', _, rfl, by decide⟩
+  by_cases h2 : c = '<'
+  · subst h2; exact ⟨'&', _, rfl, by decide⟩
+  by_cases h3 : c = '>'
+  · subst h3; exact ⟨'&', _, rfl, by decide⟩
+  by_cases h4 : c = '"'
+  · subst h4; exact ⟨'&', _, rfl, by decide⟩
+  by_cases h5 : c = '\''
+  · subst h5; exact ⟨'&', _, rfl, by decide⟩
+  exact ⟨c, [], by simp [h1, h2, h3, h4, h5], by simp [h2]⟩
+
+/-- **the text of a cell, read up to the closing tag, is the value** — whatever follows the tag -/
+theorem html_text_in_context (s rest : Str) (f : Nat) (hf : s.length < f) :
+    readHtmlUntilTag f (htmlEscape s ++ '<' :: rest) = some (s, '<' :: rest) := by
+  rw [htmlEscape_eq]
+  induction s generalizing f with
+  | nil => cases f with
+    | zero => simp at hf
+    | succ f => simp [readHtmlUntilTag]
+  | cons c s ih =>
+    cases f with
+    | zero => simp at hf
+    | succ f =>
+      simp only [List.flatMap_cons, List.append_assoc]
+      obtain ⟨x, xs, hx, hq⟩ := htmlEscChar_head c
+      have hstep := read_html_escaped c (s.flatMap htmlEscChar ++ '<' :: rest)
+      rw [hx] at hstep ⊢
+      simp only [List.cons_append] at hstep ⊢
+      simp only [readHtmlUntilTag, hq, Bool.false_eq_true, if_false, hstep]
+      rw [ih f (by simp at hf; omega)]
+      rfl
+
+def htmlCell (v : Str) : Str := ofS "<td>" ++ htmlEscape v ++ ofS "</td>"
+def htmlRow (vals : List Str) : Str := ofS "<tr>" ++ vals.flatMap htmlCell ++ ofS "</tr>"
+
+theorem fmtRow_html (items : List (Str × Str)) : fmtRow .Html items = htmlRow (items.map (·.2)) := rfl
+
+def readHtmlCell (f : Nat) (s : Str) : Option (Str × Str) :=
+  match stripPrefix (ofS "<td>") s with
+  | none => none
+  | some r =>
+    match readHtmlUntilTag f r with
+    | none => none
+    | some (v, r2) => (stripPrefix (ofS "</td>") r2).map (fun r3 => (v, r3))
+
+theorem html_cell_roundtrip (v rest : Str) (f : Nat) (hf : v.length < f) :
+    readHtmlCell f (htmlCell v ++ rest) = some (v, rest) := by
+  unfold readHtmlCell htmlCell
+  rw [List.append_assoc, List.append_assoc, stripPrefix_append]
+  simp only
+  have h : htmlEscape v ++ (ofS "</td>" ++ rest) = htmlEscape v ++ '<' :: (ofS "/td>" ++ rest) := rfl
+  rw [h, html_text_in_context v _ f hf]
+  simp only
+  have h2 : ('<' :: (ofS "/td>" ++ rest)) = ofS "</td>" ++ rest := rfl
+  rw [h2, stripPrefix_append]
+  rfl
+
+/-- the cells of a row, up to `</tr>` -/
+def readHtmlCells (f : Nat) : Nat → Str → Option (List Str × Str)
+  | 0, _ => none
+  | n + 1, s =>
+    match stripPrefix (ofS "</tr>") s with
+    | some r => some ([], r)
+    | none =>
+      match readHtmlCell f s with
+      | none => none
+      | some (v, r) => (readHtmlCells f n r).map (fun p => (v :: p.1, p.2))
+
+theorem cell_not_row_end (v rest : Str) : stripPrefix (ofS "</tr>") (htmlCell v ++ rest) = none := by
+  simp [stripPrefix, htmlCell, ofS, List.isPrefixOf]
+
+theorem html_cells_roundtrip (f : Nat) (vals : List Str) (rest : Str) (hf : ∀ v ∈ vals, v.length < f)
+    (n : Nat) (hn : vals.length < n) :
+    readHtmlCells f n (vals.flatMap htmlCell ++ ofS "</tr>" ++ rest) = some (vals, rest) := by
+  induction vals generalizing n with
+  | nil =>
+    cases n with
+    | zero => simp at hn
+    | succ n =>
+      simp only [List.flatMap_nil, List.nil_append, readHtmlCells, stripPrefix_append]
+  | cons v vs ih =>
+    cases n with
+    | zero => simp at hn
+    | succ n =>
+      simp only [List.flatMap_cons, List.append_assoc, readHtmlCells]
+      rw [cell_not_row_end, html_cell_roundtrip v _ f (hf v (by simp))]
+      simp only
+      have := ih (fun x hx => hf x (by simp [hx])) n (by simp at hn ⊢; omega)
+      simp only [List.append_assoc] at this
+      rw [this]
+      rfl
+
+def readHtmlRow (f n : Nat) (s : Str) : Option (List Str × Str) :=
+  match stripPrefix (ofS "<tr>") s with
+  | none => none
+  | some r => readHtmlCells f n r
+
+/-- **one table row carries exactly the row**: cells in order, each decoding to its value -/
+theorem html_row_roundtrip (f : Nat) (vals : List Str) (rest : Str) (hf : ∀ v ∈ vals, v.length < f) (n : Nat) (hn : vals.length < n) :
+    readHtmlRow f n (htmlRow vals ++ rest) = some (vals, rest) := by
+  unfold readHtmlRow htmlRow
+  rw [List.append_assoc, List.append_assoc, stripPrefix_append]
+  simp only
+  have := html_cells_roundtrip f vals rest hf n hn
+  simp only [List.append_assoc] at this
+  exact this
+
+/-- the rows of a table, up to the footer -/
+def readHtmlRows (f w : Nat) : Nat → Str → Option (List (List Str))
+  | 0, _ => none
+  | n + 1, s =>
+    if s == fmtFooter .Html then some []
+    else match readHtmlRow f w s with
+      | none => none
+      | some (row, r) => (readHtmlRows f w n r).map (row :: ·)
+
+theorem row_not_footer (vals : List Str) (rest : Str) : (htmlRow vals ++ rest == fmtFooter .Html) = false := by
+  have : (htmlRow vals ++ rest) = '<' :: 't' :: (ofS "r>" ++ vals.flatMap htmlCell ++ ofS "</tr>" ++ rest) := by
+    simp [htmlRow, ofS]
+  rw [this]
+  simp [fmtFooter, ofS]
+
+theorem html_rows_roundtrip (f w : Nat) (rows : List (List Str)) (hf : ∀ r ∈ rows, ∀ v ∈ r, v.length < f)
+    (hw : ∀ r ∈ rows, r.length < w) (n : Nat) (hn : rows.length < n) :
+    readHtmlRows f w n (rows.flatMap htmlRow ++ fmtFooter .Html) = some rows := by
+  induction rows generalizing n with
+  | nil =>
+    cases n with
+    | zero => simp at hn
+    | succ n => simp [readHtmlRows]
+  | cons r rs ih =>
+    cases n with
+    | zero => simp at hn
+    | succ n =>
+      simp only [List.flatMap_cons, List.append_assoc, readHtmlRows, row_not_footer, Bool.false_eq_true, if_false]
+      rw [html_row_roundtrip f r _ (hf r (by simp)) w (hw r (by simp))]
+      simp only
+      rw [ih (fun q hq => hf q (by simp [hq])) (fun q hq => hw q (by simp [hq])) n (by simp at hn ⊢; omega)]
+      rfl
+
+def readHtmlDoc (f w n : Nat) (s : Str) : Option (List (List Str)) :=
+  match stripPrefix (fmtHeader .Html) s with
+  | none => none
+  | some r => readHtmlRows f w n r
+
+/-- **the HTML output carries exactly the result table**: header, one `<tr>` per row with one `<td>` per
+    value, footer — read back as the list of rows, every cell unescaped to its value (for every table of
+    arbitrary values; the row separator of this format is empty) -/
+theorem html_document_roundtrip (f w : Nat) (rows : List (List (Str × Str)))
+    (hf : ∀ r ∈ rows, ∀ kv ∈ r, kv.2.length < f) (hw : ∀ r ∈ rows, r.length < w) :
+    readHtmlDoc f w (rows.length + 1)
+      (fmtHeader .Html ++ (rows.map (fmtRow .Html)).flatten ++ fmtFooter .Html) = some (rows.map fun r => r.map (·.2)) := by
+  unfold readHtmlDoc
+  rw [List.append_assoc, stripPrefix_append]
+  simp only
+  have hfl : (rows.map (fmtRow .Html)).flatten = (rows.map fun r => r.map (·.2)).flatMap htmlRow := by
+    induction rows with
+    | nil => rfl
+    | cons r rs ih =>
+      simp only [List.map_cons, List.flatten_cons, List.flatMap_cons, fmtRow_html]
+      rw [ih (fun q hq => hf q (by simp [hq])) (fun q hq => hw q (by simp [hq]))]
+  rw [hfl]
+  exact html_rows_roundtrip f w _ (by
+      intro r hr v hv
+      simp only [List.mem_map] at hr
+      obtain ⟨r0, hr0, rfl⟩ := hr
+      simp only [List.mem_map] at hv
+      obtain ⟨kv, hkv, rfl⟩ := hv
+      exact hf r0 hr0 kv hkv)
+    (by
+      intro r hr
+      simp only [List.mem_map] at hr
+      obtain ⟨r0, hr0, rfl⟩ := hr
+      simpa using hw r0 hr0) (rows.length + 1) (by simp)
+
+/-- the row separator of the HTML (and of every format but JSON) is empty: joined rows are the concatenation -/
+example : fmtSeparator .Html = [] ∧ fmtSeparator .Csv = [] ∧ fmtSeparator .Tabs = [] := ⟨rfl, rfl, rfl⟩
+
 
 -- ------------------------------------------------------------------ flat formats
 
